@@ -75,10 +75,11 @@ PROPS['C09'] = {
 }
 PROPS['C01'] = {
     'level': 'proof',
-    'vx': [{'unit': 'parse'}, {'unit': 'integrity'}],
+    'vx': [{'unit': 'parse'}, {'unit': 'integrity'}, {'unit': 'attrs'}],
     'bx': ['c01'],
     'rule': 'Verus exec-mode VCs (index, slice, arithmetic overflow, unwrap, unreached, termination) of every extracted decoding function with precondition true on the bytes.',
-    'proved': ['no panic / overflow / OOB / non-termination for AttributeHeader::parse, RawAttribute::from_bytes, MessageType::from_bytes, MessageHeader::from_bytes, Message::from_bytes, MessageAttributesIter::next for every byte string',
+    'proved': ['(unit attrs) the typed decoders of USERNAME REALM NONCE SOFTWARE ALTERNATE-DOMAIN ERROR-CODE PASSWORD-ALGORITHM(S) PRIORITY USE-CANDIDATE ICE-CONTROLLED ICE-CONTROLLING USERHASH MESSAGE-INTEGRITY(-SHA256) are total on every raw attribute (no index/slice/arith/unwrap failure, loops terminate); the remaining five (FINGERPRINT, XOR-MAPPED-ADDRESS, ALTERNATE-SERVER: Kani complete; UNKNOWN-ATTRIBUTES: BX) are in C08',
+               'no panic / overflow / OOB / non-termination for AttributeHeader::parse, RawAttribute::from_bytes, MessageType::from_bytes, MessageHeader::from_bytes, Message::from_bytes, MessageAttributesIter::next for every byte string',
                'Message::validate_integrity on every accepted message and every credentials value: the 16-bit offset arithmetic cannot overflow, slices are in bounds, try_into().unwrap() is on a 20-byte slice, unreachable!() is unreachable, the scan terminates; MessageIntegrity / MessageIntegritySha256 / check_type_and_len decoders total'],
     'bounded': ['check_attribute_types, Display/Debug, tracing argument expressions: BX only'],
     'trusted': _PARSE_TRUST,
@@ -124,13 +125,14 @@ PROPS['C16'] = {
 }
 PROPS['C08'] = {
     'level': 'exploration',
-    'vx': [{'unit': 'integrity', 'functions': ['try_from', 'check_type_and_len', 'hmac']}],
+    'vx': [{'unit': 'attrs'}, {'unit': 'integrity', 'functions': ['try_from', 'check_type_and_len', 'hmac']}],
     'kx': _ATTR_K,
     'bx': ['c08'],
     'rule': 'Kani complete harnesses for the ten fixed-size attribute types (symbolic type code, 0..=40 symbolic value bytes); BX for the nine variable-length types.',
     'proved': ['PRIORITY, USE-CANDIDATE, ICE-CONTROLLED, ICE-CONTROLLING, FINGERPRINT, MESSAGE-INTEGRITY, USERHASH, XOR-MAPPED-ADDRESS, ALTERNATE-SERVER, PASSWORD-ALGORITHM: decode Ok <=> RFC type code and RFC value encoding; other type => WrongAttributeImplementation; getters = encoded fields; encode = RFC layout; decode(encode(v)) = v; re-encode stable',
-               'ERROR-CODE class/number arithmetic on all 65536 byte pairs; ErrorCode::new accepts exactly 300..=699', 'check_len for all lengths and range shapes'],
-    'bounded': ['USERNAME, REALM, NONCE, SOFTWARE, ALTERNATE-DOMAIN, ERROR-CODE reason, UNKNOWN-ATTRIBUTES, PASSWORD-ALGORITHMS, MESSAGE-INTEGRITY-SHA256: BX, all lengths 0..=800 with ASCII / multi-byte UTF-8 / invalid UTF-8 fillers'],
+               'ERROR-CODE class/number arithmetic on all 65536 byte pairs; ErrorCode::new accepts exactly 300..=699', 'check_len for all lengths and range shapes',
+               '(Verus, unit attrs, value strings of ANY length) USERNAME / REALM / NONCE / SOFTWARE / ALTERNATE-DOMAIN: accepted <=> type code, length limit (513 / 763 / none), valid UTF-8; the text encodes to exactly the value bytes. ERROR-CODE: accepted <=> 4..=767 bytes, class 3..6, number <= 99, UTF-8 reason; code and reason exposed. PASSWORD-ALGORITHM(S): accepted <=> positive multiple of 4, every entry algorithm 1|2 with empty parameters; list exposed in order. PRIORITY, USE-CANDIDATE, ICE-CONTROLLED/-CONTROLLING, USERHASH, MESSAGE-INTEGRITY(-SHA256) also in Verus; wrong type => WrongAttributeImplementation'],
+    'bounded': ['encode side (to_raw / write_into_unchecked / length) of the variable-length types, constructors, UNKNOWN-ATTRIBUTES decoder (chunks_exact iterator): BX, all lengths 0..=800 with ASCII / multi-byte UTF-8 / invalid UTF-8 fillers'],
     'trusted': _KX_TRUST,
 }
 PROPS['C12'] = {
